@@ -269,7 +269,7 @@ pub fn eval(ms: &ModuleSet) -> Verdict {
 
 /// the same module text with a description comment behind every comma of every ENUMERATED
 /// item list (the TypeScript backend turns such a comment into a `//` comment behind the member)
-fn with_enumeral_comments(text: &str) -> String {
+pub fn with_enumeral_comments(text: &str) -> String {
     let mut out = String::with_capacity(text.len() + 64);
     let mut rest = text;
     while let Some(p) = rest.find("ENUMERATED {") {
